@@ -127,6 +127,8 @@ def _light(case):
     }
     if case.get("scale_k"):
         out["scale_k"] = case["scale_k"]
+    if case.get("barrier"):
+        out["barrier"] = case["barrier"]
     return out
 
 
@@ -147,6 +149,8 @@ def oracle(case):
     Qs = np.asarray(case["Q"], dtype=np.float64)
     eigs = np.linalg.eigvalsh((Qs + Qs.T) / 2.0) if Qs.size else np.zeros(1)
     lmin, lmax = float(eigs[0]), float(eigs[-1])
+    if case.get("barrier"):
+        lmin, lmax = -math.inf, math.inf  # the barrier has unbounded curvature: the spectrum oracles do not apply
     for i, r in enumerate(recs):
         where = {"step": i, "policy": pol, "accel": case["accel"]}
         if r["raised"]:
@@ -208,8 +212,14 @@ def oracle(case):
                 fq = f(y) + grad(y) @ (z - y) + 0.5 * t["L"] * float((z - y) @ (z - y))
                 # tolerance relative to the size of the terms (f-values scale with the loss; they may cancel)
                 mag = fmag(z) + fmag(y) + float(np.abs(grad(y)) @ np.abs(z - y)) + 0.5 * abs(t["L"]) * float((z - y) @ (z - y))
-                if not (abs(fz - t["fz"]) <= 16e-8 * mag and abs(fq - t["fq"]) <= 16e-8 * mag) and not (
-                        math.isnan(fz) and math.isnan(t["fz"])):
+                def _fsame(a_, b_):
+                    if math.isnan(a_) or math.isnan(b_):
+                        return math.isnan(a_) and math.isnan(b_)
+                    if math.isinf(a_) or math.isinf(b_):
+                        return a_ == b_
+                    return abs(a_ - b_) <= 16e-8 * mag
+
+                if not (_fsame(fz, t["fz"]) and _fsame(fq, t["fq"])):
                     return {**where, "why": "f / f_quad_approx differ from the documented formulas", "trial": j,
                             "fz": [t["fz"], fz], "fq": [t["fq"], fq]}
                 acc = t["fz"] <= t["fq"]
@@ -218,7 +228,7 @@ def oracle(case):
                 # C16_linesearch_bounded: every M >= lambda_max(Q) satisfies the acceptance inequality
                 if not acc and not t["fz"] - t["fq"] > 16e-8 * mag:
                     noisy = True
-                if not acc and t["L"] >= lmax * (1 + 1e-9) and t["fz"] - t["fq"] > 16e-8 * mag:
+                if not acc and math.isfinite(lmax) and t["L"] >= lmax * (1 + 1e-9) and t["fz"] - t["fq"] > 16e-8 * mag:
                     return {**where, "why": "candidate rejected although L is at least the curvature of f (quadratic upper bound holds)",
                             "trial": j, "L": t["L"], "lambda_max": lmax, "fz": t["fz"], "fq": t["fq"]}
                 Lj = Lj * pol["gu"]
@@ -226,7 +236,7 @@ def oracle(case):
             accepted = lastt["fz"] <= lastt["fq"]
             if not accepted and len(tests) < pol["maxiter"]:
                 return {**where, "why": "search stopped on a rejected candidate before the budget ran out", "trials": len(tests)}
-            if not noisy and L > max(start, pol["gu"] * lmax) * (1 + 1e-9) and pol["gu"] >= 1.0:
+            if not noisy and math.isfinite(lmax) and L > max(start, pol["gu"] * lmax) * (1 + 1e-9) and pol["gu"] >= 1.0:
                 return {**where, "why": "returned L exceeds max(L_start, gamma_u * lambda_max(Q))", "L": L, "start": start, "lambda_max": lmax}
             if not _same(L, lastt["L"]):
                 return {**where, "why": "returned L was never tried (not the first accepted / last tried value)",
@@ -237,6 +247,14 @@ def oracle(case):
                             "Z": r["Z"].tolist(), "z_of_L": lastt["z"].tolist()}
                 if case["accel"] and not common.allclose(r["x"], r["Z"], None, TOL):
                     return {**where, "why": "accelerated PGM did not take the handed-back candidate"}
+                if not case["accel"]:
+                    # C16_pgm_robust: plain PGM ignores Z; its iterate is x_step(x, L) with the L tested at the auxiliary point
+                    xb = r["x_before"]
+                    with np.errstate(all="ignore"):
+                        xs = prox(xb - grad(xb) / L, 1.0 / L)
+                    if np.all(np.isfinite(xs)) and not _vec_close(r["x"], xs, 1e-8):
+                        return {**where, "why": "plain PGM with the robust policy: the iterate is not x_step(x, L returned)",
+                                "x": r["x"].tolist(), "x_step(x,L)": xs.tolist(), "L": L}
             else:
                 if not common.allclose(r["x"], lastt["z"], None, 1e-8):
                     return {**where, "why": "new iterate is not the candidate computed with the returned L",
@@ -251,7 +269,7 @@ def oracle_memory(case):
     import scico.numpy as snp
 
     at = case.get("at_step")
-    if at is None or case["policy"]["kind"] not in ("bb", "abb"):
+    if at is None or case["policy"]["kind"] not in ("bb", "abb") or case.get("barrier"):
         return oracle({k: v for k, v in case.items() if k != "at_step"})
     c = {k: v for k, v in case.items() if k != "at_step"}
     c["steps"] = at + 1
@@ -390,11 +408,17 @@ def check_case(ctx, model, case, origin="gen"):
                     bad("stepsize.raise", i, None, "other")
                     break
             ctx.count(f"trials:{min(len(r['tests']), 9)}")
+            if kind == "rls" and not case["accel"] and r["tests"]:
+                ctx.count("pgm-robust:Z==x" if _vec_close(r["Z"], r["x"], 1e-12) else "pgm-robust:Z!=x (Z ignored)")
             if r["tests"]:
                 t = r["tests"][-1]
                 ctx.count("branch:search-accepted" if t["fz"] <= t["fq"] else "branch:search-exhausted")
                 if t["fz"] == t["fq"]:
                     ctx.count("exact:fz=fq")
+                if any(math.isnan(tt["fz"]) for tt in r["tests"]):
+                    ctx.count("nan:candidate-outside-domain")
+                if all(math.isnan(tt["fq"]) for tt in r["tests"]):
+                    ctx.count("nan:point-outside-domain")
             impl = {"L": L, "trials": len(r["tests"]), "tried": [t["L"] for t in r["tests"]]}
             if not _same(L, mL) or mtried != len(r["tests"]):
                 bad("stepsize.search", i, impl, {"L": mL, "trials": mtried})
@@ -415,6 +439,9 @@ def check_case(ctx, model, case, origin="gen"):
         ctx.count("fallback:followed-by>=2-steps" if len(recs) - 1 - i >= 2 else "fallback:near-end")
     # ---- run tie --------------------------------------------------------------
     if nbad:
+        return nbad
+    if case.get("barrier"):
+        ctx.count("run:skipped(non-quadratic loss)")
         return nbad
     try:
         out = model.call(
@@ -841,6 +868,11 @@ def correspond(ctx, model):
         steps = int(ctx.rng.integers(5, 11)) if isbb else int(ctx.rng.integers(2, 9))
         case = {**p, "policy": pol, "accel": bool(ctx.rng.integers(0, 2)), "steps": steps}
         check_case(ctx, model, case)
+    # -- domain-restricted loss (log barrier): NaN function values in the searches, NaN inner products elsewhere ------
+    for _ in range(ctx.n(30, 250)):
+        p = G.gen_barrier_problem(ctx.rng)
+        pol = G.gen_policy(ctx.rng, ["ls", "rls", "ls", "rls", "bb", "abb"][int(ctx.rng.integers(0, 6))])
+        check_case(ctx, model, {**p, "policy": pol, "accel": bool(ctx.rng.integers(0, 2)), "steps": int(ctx.rng.integers(2, 6))})
     # -- scale stream: crafted and random problems times 2^k (|k| up to 40) ------------------------------
     ks = [-40, -30, -20, -10, 10, 20, 30, 40]
     crafted = [c for c in G.crafted_cases() if c.get("flavour") in ("fallback-then-usable", "abb-memory", "budget", "tie", "negative")]
